@@ -181,6 +181,107 @@ def run(ctx, b, broken):
             ctx.violation({"property": "C14", "suite": "deep-parser-trees", "input": text[:200] + " ...", "problem": f"generic traversal of a deep tree ({nm}) visited {len(seen)} nodes, {count[0]} reachable"})
         elif lines != count[0]:
             ctx.violation({"property": "C14", "suite": "deep-parser-trees", "input": text[:200] + " ...", "problem": f"show() printed {lines} lines for {count[0]} reachable nodes of a deep tree ({nm})"})
+    # ASTs the parser really produces (hand-written programs): the same class occurs with and without children (`return;` / `return x;`,
+    # `struct s;` / `struct s {...}`, `{}` / `{ x; }`), nodes are shared by several parents (`struct pt {...} a, *b;`), and one visitor
+    # object is used again after a traversal that ended in an exception.  The reference is a plain recursive walk over children().
+    import io as _io2
+    from progsuite import ZOO
+    import semgen as _sg
+    PT = ["void f(void){ return; } int g(int x){ if (x) return x; return 1; }",
+          "struct node; struct node { int a; struct node *next; }; enum { NONE, READ = 1 << 0, WRITE = 1 << 1 }; enum tag; enum tag { T0 };",
+          "struct pt { int x; } a, *b; enum e { A, B = 2 } p, q; struct pt p2, q2; union u { int i; float f; } u1, u2[2];",
+          "void f(void){ { } { x; } ; break; for (;;) { } for (i = 0; i < 3; i++) x++; } void g(void) { } void h(int a) { a++; }",
+          "int f(); int g(void); int h(int, char *); int a[]; int b[3]; int c = 1; int d; typedef int T; T e(T);",
+          "void f(int x){ switch (x) { default: ; case 1: x++; } goto l; l: ; x = sizeof(int); y = sizeof x; }"]
+    for text in PT + [t for t, _v in ZOO] + _sg.SEMZOO:
+        try:
+            tree = c_parser.CParser().parse(text, "pt.c")
+        except Exception:
+            continue
+        ctx.evaluations += 1
+        ctx.count("suite:parser-trees")
+        ctx.nontriv(("pt", text))
+        paths = []
+
+        def walk2(n_):
+            paths.append(type(n_).__name__)
+            for _nm, ch in n_.children():
+                walk2(ch)
+        try:
+            walk2(tree)
+        except RecursionError:
+            continue
+        present = sorted(set(paths))
+        bad = None
+        # 1. a visitor without handlers, used for two traversals
+        seen = []
+
+        class V1(c_ast.NodeVisitor):
+            def generic_visit(self, n_):
+                seen.append(type(n_).__name__)
+                c_ast.NodeVisitor.generic_visit(self, n_)
+        v1 = V1()
+        v1.visit(tree)
+        if seen != paths:
+            bad = f"generic traversal visited {len(seen)} nodes, {len(paths)} reachable (in this order: a recursive walk over children())"
+        if not bad:
+            del seen[:]
+            v1.visit(tree)
+            if seen != paths:
+                bad = f"the SECOND traversal by the same visitor object visited {len(seen)} nodes, {len(paths)} reachable"
+        # 2. handlers for two classes that occur: they intercept exactly the nodes of these classes, everything is still reached
+        if not bad:
+            hs = set(ctx.rng.sample(present, min(2, len(present))))
+            log2 = []
+
+            def mk(cn):
+                def h(self, n_):
+                    log2.append(("H", type(n_).__name__))
+                    c_ast.NodeVisitor.generic_visit(self, n_)
+                return h
+            V2 = type("V2", (c_ast.NodeVisitor,), dict({"visit_" + c: mk(c) for c in hs},
+                      generic_visit=lambda self, n_: (log2.append(("G", type(n_).__name__)), c_ast.NodeVisitor.generic_visit(self, n_))[1]))
+            V2().visit(tree)
+            got = [c for k_, c in log2 if not (k_ == "G" and c in hs)]     # a handler calls generic_visit itself: drop that echo
+            if got != paths or any((c in hs) != (k_ == "H") for k_, c in log2 if not (k_ == "G" and c in hs)):
+                bad = f"visit_X for X in {sorted(hs)}: handlers / generic traversal did not see exactly the reachable nodes in order ({len(got)} of {len(paths)})"
+        # 3. a visitor whose handler raises in the middle of the first traversal is used again
+        if not bad and len(present) > 1:
+            target = ctx.rng.choice(present[1:]) if present[0] == "FileAST" else ctx.rng.choice(present)
+            state = {"raise": True}
+            seen3 = []
+
+            class V3(c_ast.NodeVisitor):
+                def generic_visit(self, n_):
+                    seen3.append(type(n_).__name__)
+                    if state["raise"] and type(n_).__name__ == target:
+                        raise KeyError("stop")
+                    c_ast.NodeVisitor.generic_visit(self, n_)
+            v3 = V3()
+            try:
+                v3.visit(tree)
+            except KeyError:
+                pass
+            state["raise"] = False
+            del seen3[:]
+            v3.visit(tree)
+            if seen3 != paths:
+                bad = f"a visitor object whose first traversal ended in an exception (raised at a {target} node) visited {len(seen3)} of {len(paths)} nodes on its next traversal"
+        # 4. show(): one line per reachable node (a node shared by two parents is reachable twice)
+        if not bad and "\\n" not in text and '"' not in text:
+            buf = _io2.StringIO()
+            tree.show(buf=buf)
+            nl_ = buf.getvalue().count("\n")
+            if nl_ > len(paths) and ("_Alignas" in text or "_Pragma" in text):
+                # the two listed findings: Alignas nodes / the Constant of _Pragma sit in plain attributes; show() prints them inside the line of
+                # their Decl / Pragma.  Only MORE lines than nodes, and only for programs with these constructs.
+                for f_ in ctx.findings:
+                    if f_["id"] in ("C14-alignas-in-plain-attribute", "C14-pragma-operator-show") and (("_Alignas" in text) if "alignas" in f_["id"] else ("_Pragma" in text)):
+                        ctx.known(f_["id"], f_["what"])
+            elif nl_ != len(paths):
+                bad = f"show() printed {nl_} lines for {len(paths)} reachable nodes"
+        if bad:
+            ctx.violation({"property": "C14", "suite": "parser-trees", "input": text, "problem": bad})
     if model:
         model.close()
     ctx.notes["rule"] = "class sweep: all 49 classes x every subset of optional children absent x sequence shapes {None, [], 1, 3}; non-trivial = at least one absent child or a sequence of length != 1; random trees of depth <= 3; distinct by value"
